@@ -535,5 +535,55 @@ def run(p: Program, rep: Report, tier: str) -> None:
     rep.require_instances("R20.1", 1)
     rep.require_instances("R20.2", 8)
     rep.require_instances("R20.3", 3)
-    rep.require_instances("R20.4", 6)
+    _cached_stream_pipe(p, rep)
+    rep.require_instances("R20.4", 7)
     rep.require_instances("R20.5", 8)
+
+
+def _cached_stream_pipe(p: Program, rep: Report) -> None:
+    """The ASGI relay buffers the inner application's body in CachedStream. It is a byte pipe: "end of body" is what push_eof() says,
+    never a property of a pushed chunk. The pinned form keeps the bytes in ONE spooled file, where an empty read IS end of data
+    (an empty pushed chunk adds nothing). A form that keeps pushed chunks as items (deque / list / queue) and still ends the
+    iteration on an empty item stops at the first empty chunk the application sent (`yield b""`, an empty more_body message):
+    everything after it is dropped although status and headers (content-length included) were relayed unchanged."""
+    try:
+        cs = p.cls("baize.asgi.middleware:CachedStream")
+    except AnalysisError:
+        rep.undecide("R20.4", "asgi: the relay's body buffer CachedStream was not found")
+        return
+    nx = cs.methods.get("__anext__")
+    if nx is None:
+        rep.undecide("R20.4", "asgi: CachedStream.__anext__ vanished (the relayed body is iterated in a form outside the table)")
+        return
+    rep.analysed(nx.fq)
+    try:
+        paths, _col, _it = run_paths(p, nx, cs)
+    except Exception as ex:
+        rep.undecide("R20.4", f"asgi: CachedStream.__anext__ not analysable ({ex})")
+        return
+    rep.cfg_paths += len(paths)
+    ends = [pa for pa in paths if pa.exit == "raise" and "StopAsyncIteration" in str(pa.value)]
+    if not ends:
+        rep.undecide("R20.4", "asgi: CachedStream.__anext__ has no path that ends the iteration")
+        return
+    bad_ = und_ = 0
+    for pa in ends:
+        # the falsy value(s) that decide the end on this path
+        falsy = [f for f, t in pa.facts if not t and f[0] in ("call", "sub", "local", "await")]
+        falsy += [f[1] for f, t in pa.facts if t and f[0] == "not"]
+        if not falsy:
+            continue
+        for f in falsy:
+            txt = show(f)
+            if ".read" in txt and not any(k in txt for k in (".popleft(", ".pop(", ".get_nowait(", "next(")):
+                continue
+            if any(k in txt for k in (".popleft(", ".pop(", ".get_nowait(", ".get(", "next(")) or f[0] == "sub":
+                bad_ += 1
+                rep.violation("R20.4", construct(nx, text=f"end of the relayed body decided by an empty item: {txt[:60]}"), where(nx),
+                              f"asgi: CachedStream.__anext__ raises StopAsyncIteration when `{txt[:70]}` is empty - that is a chunk as the inner application pushed it, not a read at the end of a file: "
+                              "an empty body chunk in the middle of a response (`yield b\"\"`, an empty more_body message) ends the relayed body and every later chunk is dropped", positive=True)
+            else:
+                und_ += 1
+                rep.undecide("R20.4", f"asgi: CachedStream.__anext__ ends the iteration on `{txt[:70]}` being empty: whether that is an end-of-file read or a pushed chunk is not recognised")
+    if not bad_ and not und_:
+        rep.ok("R20.4", f"asgi: CachedStream ends the relayed body only on an empty READ of its buffer ({len(ends)} ending path(s)); pushed chunks are never interpreted")
